@@ -430,17 +430,46 @@ static void run_cc1(int argc, char **argv, char *input, char *output) {
 }
 
 // Print tokens to stdout. Used for -E.
+static bool is_word_char(char c) {
+  return isalnum(c) || c == '_' || c == '$' || (c & 0x80);
+}
+
+// Returns true if TOK printed right after PREV would not be read back
+// as the same two tokens (e.g. `-` `-1`, `1` `2`, `L` `"s"`, `/` `/`).
+static bool need_space(Token *prev, Token *tok) {
+  static char ops[] = "+-*/%&|^<>=!.:#";
+  if (prev->len == 0 || tok->len == 0)
+    return false;
+
+  char a = prev->loc[prev->len - 1];
+  char b = tok->loc[0];
+  bool is_num = isdigit(prev->loc[0]) ||
+                (prev->loc[0] == '.' && prev->len > 1 && isdigit(prev->loc[1]));
+
+  if (is_word_char(a) && (is_word_char(b) || b == '"' || b == '\''))
+    return true;
+  if (is_num && (b == '.' || ((b == '+' || b == '-') && strchr("eEpP", a))))
+    return true;
+  if (a == '.' && isdigit(b))
+    return true;
+  return strchr(ops, a) && strchr(ops, b);
+}
+
 static void print_tokens(Token *tok) {
   FILE *out = open_file(opt_o ? opt_o : "-");
 
   int line = 1;
+  Token *prev = NULL;
   for (; tok->kind != TK_EOF; tok = tok->next) {
     if (line > 1 && tok->at_bol)
       fprintf(out, "\n");
-    if (tok->has_space && !tok->at_bol)
+    else if (tok->has_space && !tok->at_bol)
+      fprintf(out, " ");
+    else if (prev && !tok->at_bol && need_space(prev, tok))
       fprintf(out, " ");
     fprintf(out, "%.*s", tok->len, tok->loc);
     line++;
+    prev = tok;
   }
   fprintf(out, "\n");
 }
